@@ -232,7 +232,7 @@ func c02Session(r *mon.Run, jr *rand.Rand, s, s2 *session) {
 		v    *big.Int
 	}
 	muts := func(v, other *big.Int, bits int) []mut {
-		out := []mut{{"+1", add(v, bigOne)}, {"zero", bi(0)}, {"random", randBig(jr, bits)}, {"swapped", cp(other)},
+		out := []mut{{"negated", new(big.Int).Neg(v)}, {"+1", add(v, bigOne)}, {"zero", bi(0)}, {"random", randBig(jr, bits)}, {"swapped", cp(other)},
 			{"top-bit", new(big.Int).Xor(v, pow2(uint(bits)))}, {"x2", mul(v, bi(2))}}
 		if v.Sign() > 0 {
 			out = append(out, mut{"-1", sub(v, bigOne)})
